@@ -128,10 +128,10 @@ pub fn c11_left_recursion_body<S: Src>(s: &mut S) {
 }
 
 crate::harnesses! {
-    c11_shared [6] = c11_shared_body;
-    c11_positions [6] = c11_positions_body;
-    c11_wrapped [6] = c11_wrapped_body;
-    c11_nested [6] = c11_nested_body;
-    c11_zero_sized [5] = c11_zero_sized_body;
-    c11_left_recursion [8] = c11_left_recursion_body;
+    c11_shared [8] = c11_shared_body;
+    c11_positions [8] = c11_positions_body;
+    c11_wrapped [8] = c11_wrapped_body;
+    c11_nested [8] = c11_nested_body;
+    c11_zero_sized [8] = c11_zero_sized_body;
+    c11_left_recursion [9] = c11_left_recursion_body;
 }
